@@ -58,7 +58,19 @@ def reply_corpus(op, tier):
         bl = W.bodies(1 if tier == "quick" else 2)
         bl += [b"keep;\r\nOK\r\n", b"{5}\r\nkeep;\r\n", b'a\r\nNO "x"\r\nb', b"\xc3\xa9\r\n\r\n\r\n", b"keep;\r", b"x" * 70 + b"\r\n",
                # one literal longer than the client's read size that arrives in thousands of fragments under the 1-byte cap
-               b"# " + b"y" * (6000 if tier == "quick" else 70000) + b"\r\nkeep;\r\n"]
+               b"# " + b"y" * (6000 if tier == "quick" else 20000) + b"\r\nkeep;\r\n"]
+        # replies whose total length is EXACTLY the client's read size and its double (a recv() that fills the buffer to the brim and
+        # has nothing behind it), for every status wording
+        for l, b, code, _r, _t in few:
+            if code != b"OK":
+                continue
+            for target in (4096, 8192):
+                k = target
+                for _ in range(3):
+                    body = b"# " + b"z" * max(0, k) + b"\r\nkeep;\r\n"
+                    k -= len(W.getscript_reply(body, True, b)) - target
+                if len(W.getscript_reply(body, True, b)) == target:
+                    out.append(("exact%d+%s" % (target, l), W.getscript_reply(body, True, b)))
         for body in bl:
             for lit in (True, False):
                 if not lit and not refms.can_quote(body):
@@ -129,9 +141,10 @@ def segs_for(length, tier):
     yield ("cap", None)
     for c in CAPS:
         yield ("cap", c)
-    # (for very long replies the single cuts are thinned out to every 7th offset plus the last 64)
+    # (for replies longer than the read size the single cuts are thinned out: the first and last 64 offsets, those around the read
+    # size, and every 7th / 61st in between)
     for i in range(1, length):
-        if length <= 4096 or i <= 64 or i % 7 == 0 or i > length - 64:
+        if length <= 4096 or i <= 64 or i % (7 if length <= 8192 else 61) == 0 or i > length - 64 or 4090 <= i <= 4102:
             yield ("cuts", [i])
     if length <= pair_max:
         for a, b in itertools.combinations(range(1, length), 2):
